@@ -44,6 +44,7 @@ type HTTPReverseProxyOptions struct {
 
 type HTTPReverseProxy struct {
 	proxy       http.Handler
+	handler     http.Handler
 	vhostRouter *Routers
 	transport   *http.Transport
 
@@ -142,7 +143,10 @@ func NewHTTPReverseProxy(option HTTPReverseProxyOptions, vhostRouter *Routers) *
 		},
 	}
 	rp.transport = proxy.Transport.(*http.Transport)
-	rp.proxy = h2c.NewHandler(proxy, &http2.Server{})
+	rp.proxy = proxy
+	// Every request, including each stream of a cleartext HTTP/2 connection, goes through the
+	// credential check and the route lookup of serveHTTP.
+	rp.handler = h2c.NewHandler(http.HandlerFunc(rp.serveHTTP), &http2.Server{})
 	return rp
 }
 
@@ -324,6 +328,10 @@ func (rp *HTTPReverseProxy) injectRequestInfoToCtx(req *http.Request) *http.Requ
 }
 
 func (rp *HTTPReverseProxy) ServeHTTP(rw http.ResponseWriter, req *http.Request) {
+	rp.handler.ServeHTTP(rw, req)
+}
+
+func (rp *HTTPReverseProxy) serveHTTP(rw http.ResponseWriter, req *http.Request) {
 	domain, _ := httppkg.CanonicalHost(req.Host)
 	location := req.URL.Path
 	user, passwd, _ := req.BasicAuth()
